@@ -9,6 +9,7 @@ package hotrestart
 //@   mode bv
 //@   prop C17
 //@   ensures @len-matches-payload result1 == nil ==> result0 != nil && int(result0.Len) == len(result0.Data) && result0.Type == typ && result0.Len <= 65532
+//@   ensures @the-empty-payloads-always-marshal result1 == nil
 
 //@ func sendMessage
 //@   mode bv
@@ -25,3 +26,71 @@ package hotrestart
 //@   ensures @header result1 == nil ==> result0 != nil && recvN >= 3 && byte(result0.Type) == recvBuf[0] && result0.Len == (uint16(recvBuf[1]) << 8 | uint16(recvBuf[2]))
 //@   ensures @payload-inside-received-bytes result1 == nil ==> 3 + int(result0.Len) <= recvN
 //@   ensures @payload result1 == nil ==> sameslice(result0.Data, recvBuf[3:3+int(result0.Len)])
+
+// ---- C17: each request is dispatched to its handler, which performs the step once and sends the matching reply ----
+
+//@ func newShutdownParentAdminResponse
+//@   mode bv
+//@   prop C17
+//@   ensures @reply result != nil && result.Type == 2 && int(result.Len) == len(result.Data) && result.Len <= 65532
+
+//@ func newShutdownParentLocalConfResponse
+//@   mode bv
+//@   prop C17
+//@   ensures @reply result != nil && result.Type == 4 && int(result.Len) == len(result.Data) && result.Len <= 65532
+
+//@ func newDrainParentListenersResponse
+//@   mode bv
+//@   prop C17
+//@   ensures @reply result != nil && result.Type == 6 && int(result.Len) == len(result.Data) && result.Len <= 65532
+
+//@ func newTerminateParentResponse
+//@   mode bv
+//@   prop C17
+//@   ensures @reply result != nil && result.Type == 8 && int(result.Len) == len(result.Data) && result.Len <= 65532
+
+//@ func newUnknownResponse
+//@   mode bv
+//@   prop C17
+//@   ensures @reply result != nil && result.Type == 9 && int(result.Len) == len(result.Data) && result.Len <= 65532
+
+//@ func (*Restarter).handleShutdownAdminRequest
+//@   prop C17
+//@   requires r != nil
+//@   modifies all, hrsteps, hrlast
+//@   callpre sendMessage @the-step-once-then-the-matching-reply arg0 == from && arg1 != nil && arg1.Type == 2 && hrsteps == old(hrsteps) + 1 && hrlast == 1
+//@   ensures @one-step hrsteps == old(hrsteps) + 1 && hrlast == 1
+
+//@ func (*Restarter).handleShutdownLocalConfRequest
+//@   prop C17
+//@   requires r != nil
+//@   modifies all, hrsteps, hrlast
+//@   callpre sendMessage @the-step-once-then-the-matching-reply arg0 == from && arg1 != nil && arg1.Type == 4 && hrsteps == old(hrsteps) + 1 && hrlast == 2
+//@   ensures @one-step hrsteps == old(hrsteps) + 1 && hrlast == 2
+
+//@ func (*Restarter).handleDrainListenersRequest
+//@   prop C17
+//@   requires r != nil
+//@   modifies all, hrsteps, hrlast
+//@   callpre sendMessage @the-step-once-then-the-matching-reply arg0 == from && arg1 != nil && arg1.Type == 6 && hrsteps == old(hrsteps) + 1 && hrlast == 3
+//@   ensures @one-step hrsteps == old(hrsteps) + 1 && hrlast == 3
+
+//@ func (*Restarter).handleTerminateRequest
+//@   prop C17
+//@   requires r != nil
+//@   modifies all
+//@   callpre sendMessage @acknowledged-before-terminating arg0 == from && arg1 != nil && arg1.Type == 8 && hrsteps == old(hrsteps)
+//@   callpre kill @terminates-itself-after-the-reply arg1 == 15
+
+//@ func (*Restarter).handleUnknownRequest
+//@   prop C17
+//@   requires r != nil
+//@   modifies all
+//@   callpre sendMessage @unknown-requests-get-the-unknown-reply arg0 == from && arg1 != nil && arg1.Type == 9 && hrsteps == old(hrsteps)
+//@   ensures @no-step hrsteps == old(hrsteps)
+
+//@ func (*Restarter).handleChild
+//@   mode bv
+//@   prop C17
+//@   requires r != nil && conn != nil
+//@   callpre dynamic @each-request-goes-to-its-own-handler (msg.Type == 1 ==> fnis(callee, "handleShutdownAdminRequest$bound")) && (msg.Type == 3 ==> fnis(callee, "handleShutdownLocalConfRequest$bound")) && (msg.Type == 5 ==> fnis(callee, "handleDrainListenersRequest$bound")) && (msg.Type == 7 ==> fnis(callee, "handleTerminateRequest$bound")) && (msg.Type != 1 && msg.Type != 3 && msg.Type != 5 && msg.Type != 7 ==> fnis(callee, "handleUnknownRequest$bound"))
